@@ -67,6 +67,7 @@ bool have_asan();
 // abandoned (counted) and a replacement worker continues with the remaining items.
 void parallel(uint64_t n, const std::function<void(uint64_t)>& body, int chunk = 1);
 bool in_worker();
+void restart_worker(); // worker: flush and exit; a fresh worker continues with the item after the current one
 int worker_id();
 // file in the scratch dir that a worker may append records to; the parent reads them after parallel()
 std::string scratch_dir();
